@@ -602,10 +602,12 @@ def replay(ctx, rec):
         import random
         mj = q["mj"]
 
+        spj, pj = mj.get("sp"), mj.get("pos")
+        # the arguments are fixed before the caller touches its system again (a Species object is read for its label only)
+        sp_ = None if spj is None else (spj.get("label") or (system.network.species[LABELS.index(spj["obj"])].copy() if "obj" in spj else spj["idx"]))
+        ps_ = None if pj is None else (tuple(pj["coords"]) if "coords" in pj else Coord(*pj["obj"]) if "obj" in pj else pj["idx"])
+
         def run1():
-            spj, pj = mj.get("sp"), mj.get("pos")
-            sp_ = None if spj is None else (spj.get("label") or (system.network.species[LABELS.index(spj["obj"])] if "obj" in spj else spj["idx"]))
-            ps_ = None if pj is None else (tuple(pj["coords"]) if "coords" in pj else Coord(*pj["obj"]) if "obj" in pj else pj["idx"])
             if mj["q"] == "point":
                 return canon(*call(lambda: traj.get_trajectory_point(sp_, mj["k"], ps_)))
             if mj["q"] == "state":
